@@ -27,6 +27,12 @@ try:
     res["demo_with_patch_output"] = (r1.stdout + r1.stderr)[-600:]
     t = sh(f"cd {wt} && PYTHONPATH={wt}/src timeout 1500 /venv/bin/python -m pytest -q -p no:cacheprovider --timeout=900 -n 6 tests 2>&1 | tail -1")
     res["tests_with_patch"] = t.stdout.strip()
+    if "failed" in res["tests_with_patch"]:
+        # tests/actor/test_actor.py::test_does_not_restart_on_normal_exit is flaky under xdist on a loaded
+        # machine (also on the unchanged tree): re-run once before judging
+        t = sh(f"cd {wt} && PYTHONPATH={wt}/src timeout 1500 /venv/bin/python -m pytest -q -p no:cacheprovider --timeout=900 -n 4 tests 2>&1 | tail -1")
+        res["tests_with_patch_first_run"] = res["tests_with_patch"]
+        res["tests_with_patch"] = t.stdout.strip()
     checks = {}
     for cid in [pid] + extra:
         t0 = time.time()
